@@ -559,6 +559,19 @@ func (st *Store) bvBin(op Op, a, b *Term) *Term {
 	isOnes := func(t *Term) bool { return t.IsConst() && t.Val.Cmp(mask(w)) == 0 }
 	switch op {
 	case OBVAdd, OBVOr, OBVXor:
+		if op == OBVXor {
+			// xor(xor(x, c1), c2) = xor(x, c1 ^ c2)
+			if b.IsConst() && a.Op == OBVXor && (a.Args[0].IsConst() || a.Args[1].IsConst()) {
+				c1, x := a.Args[0], a.Args[1]
+				if !c1.IsConst() {
+					c1, x = x, c1
+				}
+				return st.bvBin(OBVXor, x, st.BVConst(new(big.Int).Xor(c1.Val, b.Val), w))
+			}
+			if a.IsConst() && b.Op == OBVXor && (b.Args[0].IsConst() || b.Args[1].IsConst()) {
+				return st.bvBin(OBVXor, b, a)
+			}
+		}
 		if isZero(a) {
 			return b
 		}
